@@ -152,10 +152,12 @@ def gen_mode(rng, prefix, rich):
              "control_events": [{"action": "start", "event": "x_%s_start" % name},
                                 {"action": "stop", "event": "x_%s_stop" % name},
                                 {"action": "add", "event": "x_%s_add" % name, "value": 3},
-                                {"action": "jump", "event": "x_%s_jump" % name, "value": 7}]}
+                                {"action": "jump", "event": "x_%s_jump" % name, "value": 7},
+                                {"action": "pause", "event": "x_%s_pause" % name, "value": rng.choice([1, 2, 4])},
+                                {"action": "pause", "event": "x_%s_pause0" % name, "value": 0}]}
         if up:
             t["end_value"] = 1000
-        stim += ["x_%s_%s" % (name, k) for k in ("start", "stop", "add", "jump")]
+        stim += ["x_%s_%s" % (name, k) for k in ("start", "stop", "add", "jump", "pause", "pause", "pause0")]
         timers[name] = t
     if timers:
         cfg["timers"] = timers
